@@ -96,7 +96,11 @@ def execute(G, cfg, op, cl, payload, link):
                 if not (out[0] == "ok" and out[1] == expected_result(op, name, genuine_val)):
                     raise core.Failure("report-handling:" + sig_cls, info)
         else:
-            if not (out[0] == "ok" and out[1] == expected_result(op, name, forged_val)):
+            delivered = out[0] == "ok" and out[1] == expected_result(op, name, forged_val)
+            # an authentic reply that additionally carries the reportable / reserved msgFlags bits may be ignored by a
+            # strict implementation: then the genuine reply that follows must be the one delivered
+            tolerated = extra and out[0] == "ok" and out[1] == expected_result(op, name, genuine_val)
+            if not (delivered or tolerated):
                 raise core.Failure("authentic-reply-not-delivered:" + sig_cls, info)
         return "accepted"
     # forged: must be skipped; the genuine reply is delivered
